@@ -1,6 +1,7 @@
 """Deadline oracle of C15, run as a subprocess with PYTHONPATH=<tree under test>:
 
-    python c15_timing.py <shape> <n>        -> one JSON line {"shape","n","times":{op: cpu seconds},"errors":{op: kind}}
+    python c15_timing.py <shape> <n>
+        -> one JSON line {"shape","n","times":{op: cpu seconds},"errors":{op: kind},"work":{counter: steps}}
 
 Builds one reference-graph shape of size n through the public API and measures the CPU time of every operation the
 property names: to_xmi, to_json (type systems FULL and MINIMAL), load_cas_from_xmi, load_cas_from_json, typecheck, select (select/select_all/
@@ -15,12 +16,21 @@ import warnings
 SHAPES = ["chain", "cycle", "selfref", "diamond", "inline_array", "shared_array", "inline_list", "shared_list",
           "cyclic_inline_list", "cyclic_shared_list", "many_small_collections", "top_fan", "deep_types", "type_ref_ladder",
           "prim_lists", "cyclic_inline_int_list", "cyclic_inline_float_list", "cyclic_inline_string_list",
-          "cyclic_shared_prim_list"]
+          "cyclic_shared_prim_list", "nested_arrays", "nested_collections", "merged_types"]
 DEPTH = 60
 ADDRESS_SPACE_CAP = 4 * 1024 ** 3        # a loop that does not end usually also allocates without end: MemoryError, not swap
 
 
-def make_ts(cassis):
+def make_ts(cassis, depth=DEPTH, tree="created"):
+    """tree: how the deep type tree d.T0 <- d.T1 <- ... comes into being.  `created`: create_type level by level.
+    `merged`: two versions of the tree are merged, the second one refines the first by inserting an intermediate type
+    d.X<i> between d.T<i> and d.T<i+1> on every level (merge_typesystems re-parents d.T<i+1> under the more specific
+    supertype), a third version - the first one again, read back from its XML - is merged in afterwards."""
+    if tree == "merged":
+        v1 = make_ts(cassis, depth)
+        v2 = make_ts(cassis, depth, tree="refined")
+        v3 = cassis.load_typesystem(v1.to_xml())
+        return cassis.merge_typesystems(cassis.merge_typesystems(v1, v2), v3)
     ts = cassis.TypeSystem()
     n = ts.create_type("g.Node", "uima.cas.TOP")
     for f in ("a", "b"):
@@ -35,8 +45,16 @@ def make_ts(cassis):
         ts.create_feature(n, f, "uima.cas.%sList" % kind)                                       # written inside the holder
     ts.create_feature(n, "sil", "uima.cas.IntegerList", multipleReferencesAllowed=True)
     ts.create_feature(n, "ssl", "uima.cas.StringList", multipleReferencesAllowed=True)
+    # collections of anything (element type uima.cas.TOP): their elements may be collections again
+    ts.create_feature(n, "tarr", "uima.cas.FSArray")                                            # written inside the holder
+    ts.create_feature(n, "starr", "uima.cas.FSArray", elementType="uima.cas.TOP", multipleReferencesAllowed=True)
     prev = "uima.tcas.Annotation"
-    for i in range(DEPTH):
+    for i in range(depth):
+        if tree == "refined" and i > 0:
+            x = ts.create_type("d.X%d" % (i - 1), prev)
+            if i % 10 == 5:
+                ts.create_feature(x, "x%d" % i, "g.Node")
+            prev = "d.X%d" % (i - 1)
         t = ts.create_type("d.T%d" % i, prev)
         if i % 10 == 0:
             ts.create_feature(t, "r%d" % i, "g.Node")
@@ -81,7 +99,7 @@ def add_ladder(ts, depth):
 
 
 def build(cassis, shape, n):
-    ts = make_ts(cassis)
+    ts = make_ts(cassis, n, tree="merged") if shape == "merged_types" else make_ts(cassis)
     cas = cassis.Cas(typesystem=ts)
     cas.sofa_string = "x" * 200
     Node, Arr = ts.get_type("g.Node"), ts.get_type("uima.cas.FSArray")
@@ -203,6 +221,46 @@ def build(cassis, shape, n):
             if (i % DEPTH) >= 10:
                 a.r10 = g
             cas.add(a)
+    elif shape == "merged_types":
+        # n = depth of the merged tree (2n - 1 levels with the inserted intermediate types); a few annotations per level
+        g = Node()
+        for i in range(4 * n):
+            lvl = i % n
+            t = ts.get_type(("d.X%d" % lvl) if i % 3 == 2 and lvl < n - 1 else ("d.T%d" % lvl))
+            a = t(begin=i % 150, end=i % 150 + (i % 50))
+            a.r0 = g
+            cas.add(a)
+    elif shape == "nested_arrays":
+        # FSArrays whose elements are FSArrays again, reachable only through arrays: a chain in which every array holds
+        # the next one twice (and a null), closed into cycles by the last array; entered through a shared and an inline feature
+        arrays = [Arr(elements=[]) for _ in range(n)]
+        for i in range(n - 1):
+            arrays[i].elements = [arrays[i + 1], None, arrays[i + 1]]
+        leaf = Node(n=1)
+        arrays[-1].elements = [arrays[n // 2], arrays[0], None, leaf, arrays[-1]]
+        o = Node(n=0)
+        o.starr = arrays[0]
+        cas.add(o)
+        p = Node(n=2)
+        p.tarr = Arr(elements=[arrays[1], arrays[1], arrays[n // 3]])
+        cas.add(p)
+    elif shape == "nested_collections":
+        # collections inside collections of the other kind: arrays of list nodes whose heads are arrays of list nodes ...
+        # (arrays directly inside arrays are the shape nested_arrays)
+        leaf = Node(n=1)
+        inner = [Arr(elements=[leaf, None, leaf])]
+        for i in range(n // 3):
+            lst = mklist(ts, [inner[-1], inner[-1], None])
+            inner.append(Arr(elements=[lst, lst, None, lst.tail]))
+        inner[0].elements = [leaf, inner[-1], inner[len(inner) // 2]]            # and back: cycles through both kinds
+        o = Node(n=0)
+        o.starr = inner[-1]
+        o.slst = mklist(ts, [inner[-1], inner[1], inner[-1]])
+        cas.add(o)
+        p = Node(n=2)
+        p.tarr = Arr(elements=[inner[1], inner[1]])
+        p.lst = mklist(ts, [inner[-1], inner[2 % len(inner)]])
+        cas.add(p)
     else:
         raise ValueError(shape)
     return ts, cas
@@ -232,7 +290,8 @@ def main():
     from cassis.typesystem import TypeSystemMode
     from cassis.util import cas_to_comparable_text
     ts, cas = build(cassis, shape, n)
-    times, errors = {}, {}
+    times, errors, work = {}, {}, {}
+    depth = n if shape == "merged_types" else DEPTH
     timed(times, errors, "typecheck", lambda: cas.typecheck())
     xmi = timed(times, errors, "to_xmi", lambda: cas.to_xmi())
     js = timed(times, errors, "to_json", lambda: cas.to_json())
@@ -244,20 +303,31 @@ def main():
 
     def queries():
         k = 0
-        for name in ("g.Node", "uima.tcas.Annotation", "d.T0", "d.T30", "d.T%d" % (DEPTH - 1), "uima.cas.TOP"):
+        for name in ("g.Node", "uima.tcas.Annotation", "d.T0", "d.T%d" % (depth // 2), "d.T%d" % (depth - 1), "uima.cas.TOP"):
             k += len(list(cas.select(name)))
         k += len(cas.select_all())
         anns = list(cas.select("d.T0"))[:50]
         for a in anns:
             k += len(list(cas.select_covered("uima.tcas.Annotation", a)))
-        for i in range(DEPTH):
+        for i in range(depth):
             k += ts.subsumes("d.T0", "d.T%d" % i) + ts.is_instance_of("d.T%d" % i, "uima.cas.TOP")
             k += len(list(ts.get_type("d.T%d" % i).descendants)) if i % 20 == 0 else 0
         return k
 
+    def count_work():
+        # work counted in steps rather than seconds: how many types the walk over the subtypes of the root of the deep
+        # tree (what select / select_covered / create_feature iterate over) hands out, against how many types there are.
+        # The walk is cut off far above any polynomial of the number of types.
+        from itertools import islice
+        n_types = sum(1 for _ in ts.get_types())
+        work["types"] = n_types
+        work["subtypes_walked"] = sum(1 for _ in islice(ts.get_type("d.T0").descendants, 50 * n_types + 1000))
+        work["subtypes_distinct"] = len({t.name for t in islice(ts.get_type("d.T0").descendants, 50 * n_types + 1000)})
+
+    timed(times, errors, "count_subtypes", count_work)
     timed(times, errors, "select", queries)
     timed(times, errors, "cas_to_comparable_text", lambda: cas_to_comparable_text(cas))
-    print(json.dumps({"shape": shape, "n": n, "times": times, "errors": errors}))
+    print(json.dumps({"shape": shape, "n": n, "times": times, "errors": errors, "work": work}))
 
 
 if __name__ == "__main__":
